@@ -642,7 +642,7 @@ Notation atomgrid_init := (atomgrid_init o dtab ntab ang rot).
 Notation tables_okb := (tables_okb dtab ntab).
 Notation from_preset := (from_preset o dtab ntab ang rot).
 Notation preset_spec := (preset_spec o ntab).
-Notation preset_okb := (preset_okb o ntab).
+Notation preset_okb := (preset_okb o dtab ntab).
 Notation requested := (C05_proofs.requested ntab).
 
 (* a supported degree together with its size *)
@@ -750,18 +750,37 @@ Proof.
       destruct (Cs k ltac:(lia)) as (s' & Hin & Hle & _). exists s'. split; [exact Hin|exact Hle].
   - (* sector radii *)
     apply andb_prop in Hok as [Hlen Hres]. apply Nat.eqb_eq in Hlen.
-    destruct (resolvable_convert m _ Hres) as [ds Ec]. rewrite Ec.
-    destruct (convert_spec m _ ds Tok Ec) as [Lds Cs].
+    destruct (tables_facts dtab ntab m Tok) as (S1 & _ & _ & N1 & _ & _).
+    assert (Hsz : forall s, In s (pr_npt row) -> size_okb dtab ntab cfg m s = true).
+    { rewrite forallb_forall in Hres. intros s Hs. apply Hres, zdedupe_in, Hs. }
+    destruct (traverse_total (fun s => option_map fst (resolve_size (conv cfg m) s)) (pr_npt row)) as [ds Ec].
+    { intros s Hs. specialize (Hsz s Hs). unfold size_okb in Hsz.
+      destruct (resolve_size (conv cfg m) s) as [[d sz]|]; [discriminate|discriminate]. }
+    change (traverse _ (pr_npt row)) with (C05_model.convert ntab (conv cfg m) (pr_npt row)) in Ec. rewrite Ec.
+    pose proof Ec as Et. apply traverse_some in Et as [Lds Nds].
+    (* every converted degree resolves in method m to a size not below the tabulated one *)
+    assert (Cs : forall j, j < length (pr_npt row) -> exists d' s',
+               resolve (dtab m) (nth j ds 0%Z) = Some (d', s') /\ (nth j (pr_npt row) 0 <= s')%Z).
+    { intros j Hj. specialize (Nds j 0%Z 0%Z Hj). specialize (Hsz _ (nth_In _ 0%Z Hj)). unfold size_okb in Hsz.
+      destruct (resolve_size (conv cfg m) (nth j (pr_npt row) 0%Z)) as [[d sz]|]; [|discriminate].
+      cbn in Nds. injection Nds as <-. unfold C05_model.resolve_degree in Hsz.
+      destruct (resolve (dtab m) d) as [[d' s']|]; [|discriminate]. exists d', s'. split; [reflexivity|]. now apply Z.leb_le. }
     destruct (sector_lookup_lemma o (rg_pts rg) (rad_as_T o (pr_rad row)) ds ltac:(lia)) as (l & Hl & Ll & Nl).
     rewrite Hl. cbn [option_map].
-    destruct (init_of_supported m rg (Degrees l) c rotate l Tok W Hrg Hrot) as (g & Hg & Hd).
+    destruct (init_total o dtab ntab ang rot m rg (Degrees l) c rotate l W Hrg Hrot) as (sh & Hsh & Hinit).
     + unfold C05_proofs.requested. cbn [option_map]. f_equal. now apply expand_same.
     + exact Ll.
     + intros d Hd. apply In_nth with (d := 0%Z) in Hd as (k & Hk & <-).
-      destruct (Nl k ltac:(lia)) as (Hp & -> & _). rewrite Lds in Hp. destruct (Cs _ Hp) as (s' & Hin & _). now exists s'.
-    + exists g. split; [exact Hg|]. rewrite Hd. split; [exact Ll|]. intros k Hk.
-      destruct (Nl k Hk) as (Hp & -> & _). rewrite Lds in Hp. destruct (Cs _ Hp) as (s' & Hin & Hle & _).
-      exists s'. split; [exact Hin|exact Hle].
+      destruct (Nl k ltac:(lia)) as (Hp & -> & _). rewrite Lds in Hp. destruct (Cs _ Hp) as (d' & s' & E & _).
+      unfold C05_model.resolve_degree. now rewrite E.
+    + destruct (shells_of_spec o dtab ntab ang m rg l sh Tok W Ll Hsh) as [[ML _] K].
+      eexists. split; [exact Hinit|]. cbn [ag_degs C05_model.atomgrid_of]. rewrite map_length. split; [exact ML|].
+      intros k Hk. rewrite (nth_map_lt sh_deg sh k shell0 0%Z) by lia.
+      specialize (K k ltac:(lia)). destruct (Nl k Hk) as (Hp & En & _). rewrite Lds in Hp.
+      destruct (Cs _ Hp) as (d' & s' & E & Hle).
+      unfold C05_model.angular, C05_model.resolve_degree in K. rewrite En, E in K. injection K as K _.
+      exists s'. rewrite <- K. split; [|exact Hle].
+      now destruct (resolve_some _ _ _ _ S1 N1 E) as (_ & Hin & _).
 Qed.
 
 (* ---- the two ways a tabulated element fails to build *)
@@ -776,7 +795,7 @@ Proof.
   intros Br Hrow (r & Hr & Hlt). unfold C05_model.from_preset. rewrite Hrow.
   destruct (negb (rg_okb o rg)); [reflexivity|].
   unfold C05_model.preset_spec. rewrite Br. cbn [pr_npt pr_rad rad_as_T map].
-  destruct (convert m [npt]) as [ds|] eqn:Ec; [|reflexivity].
+  destruct (convert (conv cfg m) [npt]) as [ds|] eqn:Ec; [|reflexivity].
   apply traverse_some in Ec as [L _]. destruct ds as [|d [|d' ds]]; cbn in L; try lia.
   unfold find_degrees. rewrite (traverse_none _ (rg_pts rg) r Hr); [reflexivity|].
   unfold position. cbn [count]. rewrite Hlt. reflexivity.
